@@ -410,3 +410,96 @@ func runNegoScenario(seed int64, idx int) *scenario {
 	send(sconn, ts, cconn, tc, "server→client")
 	return sc
 }
+
+// ---------------------------------------------------------------------------
+// C07: arbitrary bytes as the server's reply to Dial and as a proxy's reply to CONNECT
+// ---------------------------------------------------------------------------
+
+func runDialFuzzScenario(seed int64) *scenario {
+	r := rand.New(rand.NewSource(seed))
+	sc := &scenario{kind: "dfuzz", seed: seed}
+	base := "HTTP/1.1 101 Switching Protocols\r\nUpgrade: websocket\r\nConnection: Upgrade\r\nSec-WebSocket-Accept: KEY\r\nSec-WebSocket-Extensions: permessage-deflate; server_no_context_takeover; client_no_context_takeover\r\n\r\n"
+	pieces := []string{"HTTP/1.1 ", "HTTP/1.0 ", "101", "200", "407", "999999999999999999999", " ", "\r\n", "\n", ":", "Upgrade: websocket", "Connection: upgrade",
+		"Sec-WebSocket-Extensions: ", "permessage-deflate", "; x=\"", "\\", "\"", ",", ";", "=", "Content-Length: 99999999999", "Transfer-Encoding: chunked", "\x00", "\xff", "a"}
+	mk := func() []byte {
+		switch r.Intn(5) {
+		case 0:
+			b := make([]byte, r.Intn(200))
+			r.Read(b)
+			return b
+		case 1:
+			b := []byte(base)
+			for i := 0; i < 1+r.Intn(5); i++ {
+				b[r.Intn(len(b))] = byte(r.Intn(256))
+			}
+			return b
+		case 2:
+			return []byte(base[:r.Intn(len(base))])
+		default:
+			var sb strings.Builder
+			for i := r.Intn(25); i >= 0; i-- {
+				sb.WriteString(pieces[r.Intn(len(pieces))])
+			}
+			if r.Intn(2) == 0 {
+				sb.WriteString("\r\n\r\n")
+			}
+			return []byte(sb.String())
+		}
+	}
+	for i := 0; i < 6; i++ {
+		reply := mk()
+		proxyMode := i%2 == 1
+		t := newTConn(&evlog{})
+		t.quiet = true
+		d := &websocket.Dialer{HandshakeTimeout: time.Second, EnableCompression: true}
+		if proxyMode {
+			d.Proxy = func(*http.Request) (*url.URL, error) { return url.Parse("http://proxy.test:8080") }
+			t.dynQ = append(t.dynQ, func([]byte) []byte { return reply })
+		} else {
+			t.dynQ = append(t.dynQ, func(w []byte) []byte {
+				key := ""
+				for _, l := range strings.Split(string(w), "\r\n") {
+					if j := strings.Index(l, ":"); j > 0 && asciiLower(l[:j]) == "sec-websocket-key" {
+						key = owsTrim(l[j+1:])
+					}
+				}
+				return bytes.ReplaceAll(reply, []byte("KEY"), []byte(acceptFor(key)))
+			})
+		}
+		d.NetDialContext = func(ctx context.Context, network, addr string) (net.Conn, error) { return t, nil }
+		var ms0, ms1 runtimeMem
+		ms0.read()
+		done := make(chan string, 1)
+		go func() {
+			defer func() {
+				if p := recover(); p != nil {
+					done <- fmt.Sprint("panic: ", p)
+				}
+			}()
+			c, _, err := d.Dial("ws://backend.test/", nil)
+			if err == nil && c == nil {
+				done <- "nil conn without error"
+				return
+			}
+			done <- ""
+		}()
+		select {
+		case msg := <-done:
+			if msg != "" {
+				if proxyMode && strings.Contains(msg, "index out of range") {
+					sc.knownHit("F6-proxy-status-without-reason", fmt.Sprintf("CONNECT reply %q: %s", reply, msg))
+				} else {
+					sc.violate("Dial with reply %q (proxy=%v): %s", reply, proxyMode, msg)
+				}
+			}
+		case <-time.After(5 * time.Second):
+			sc.violate("Dial with reply %q (proxy=%v) did not return", reply, proxyMode)
+		}
+		ms1.read()
+		if dlt := ms1.total - ms0.total; dlt > uint64(1<<20) {
+			sc.violate("Dial with a %d-byte reply allocated %d bytes", len(reply), dlt)
+		}
+		sc.emit(fmt.Sprintf("dfuzz %d", i), "ok")
+	}
+	return sc
+}
